@@ -398,8 +398,11 @@ func vGenContainer(kind, shape int) (container, *vDesc) {
 		sz := 2 + 4*len(rc.iv)
 		vsym.Assume(vsym.And(sz < 8192+bcBaseBytes, sz < 2*card))
 	}
-	if bc, ok := c.(*bitmapContainer); ok && vsym.Param("eff") == 1 {
-		vsym.Assume(bc.cardinality > arrayDefaultMaxSize)
+	if bc, ok := c.(*bitmapContainer); ok {
+		if vsym.Param("eff") == 1 {
+			vsym.Assume(bc.cardinality > arrayDefaultMaxSize)
+		}
+		vsym.Assume(bc.cardinality > 0) // no chunk is ever empty
 	}
 	return c, d
 }
@@ -469,6 +472,10 @@ func vGenContainer0(kind, shape int) (container, *vDesc) {
 			return vGenBitmapC(vPatMid, []int{312, 406}, 3)
 		case 6:
 			return vGenBitmapC(vPatLo, []int{0, 1, 64}, 6)
+		case 7: // iterator walks: only the free bits are set (NOT a valid chunk: fewer than 4097 values; stated in DESIGN)
+			return vGenBitmapC(vPatZero, []int{0, 1023}, 3)
+		case 8:
+			return vGenBitmapC(vPatZero, []int{5, 6}, 4)
 		}
 	}
 	panic("vGenContainer: unknown kind/shape")
